@@ -355,9 +355,12 @@ func (e *Exec) ensurePkgInit(p *ssa.Package) {
 		} else if len(e.threads) > 0 {
 			st = e.threads[0]
 		}
-		save := st.fr
+		save, saveMon := st.fr, st.inMon
+		e.inPkgInit++
+		st.inMon = false
 		st.interpret(init, nil, nil)
-		st.fr = save
+		e.inPkgInit--
+		st.fr, st.inMon = save, saveMon
 	}
 }
 
